@@ -1078,6 +1078,26 @@ class HistRunner {
     { std::string k = "zz-written-into-the-copy"; ldb_slice_t ks = slice_of(k); if (ldb_has(db, &ks, nullptr) == LDB_OK && !model.count(k)) VF_FAIL("C20", "a write into the backup appeared in the source"); }
     rep->count("backups");
     if (nt) backup_nt = true;
+    // existing destinations: a second backup to the same name, or to the database's own directory, is either refused or
+    // carried out correctly; in no case may it damage what is there
+    if (backup_seq % 3 == 0) {
+      auto dest_before = snapshot_dir_bytes(b.path);
+      sched_call_begin();
+      int rc2 = ldb_backup(db, b.path.c_str());
+      sched_call_end();
+      if (rc2 != LDB_OK && snapshot_dir_bytes(b.path) != dest_before) VF_FAIL("C20", "a second ldb_backup to the same name was refused (rc=%d) but removed or changed the earlier backup's files", rc2);
+      compare_db_with(b.path, backups.back().view, "backup after a second ldb_backup to the same name", false);
+      rep->count("backups_onto_existing_backup");
+    } else if (backup_seq % 3 == 1) {
+      if (sched_on) sched_quiesce();
+      auto own_before = snapshot_dir_bytes(dir);
+      sched_call_begin();
+      int rc2 = ldb_backup(db, dir.c_str());
+      sched_call_end();
+      if (sched_on) sched_quiesce();
+      if (snapshot_dir_bytes(dir) != own_before) VF_FAIL("C20", "ldb_backup of a database onto its own directory (rc=%d) removed or changed its files", rc2);
+      rep->count("backups_onto_self");
+    }
   }
   bool backup_nt = false;
 
@@ -1108,13 +1128,34 @@ class HistRunner {
     opts.build(cfg);
     // a copy that fails after it has taken the source lock (destination already exists) must release the lock again
     // and leave the source untouched
-    if (backup_seq % 2 == 0) {
+    // Destinations that already exist.  The statement does not say whether such a copy is refused or carried out; it does say
+    // the operation is non-destructive: a refused copy leaves the destination's files and the source as they were, a copy
+    // that reports success is a database equal to the source.
+    int dv = backup_seq % 4;
+    if (dv == 0) {   // an existing empty directory
       mkdir(to.c_str(), 0755);
       rc = ldb_copy(dir.c_str(), to.c_str(), &opts.opt);
-      if (rc == LDB_OK) VF_FAIL("C20", "ldb_copy onto an existing directory succeeded");
-      if (snapshot_dir_bytes(dir) != before) VF_FAIL("C20", "a failed ldb_copy modified the source directory");
+      if (snapshot_dir_bytes(dir) != before) VF_FAIL("C20", "ldb_copy onto an existing empty directory modified the source directory");
+      if (rc == LDB_OK) compare_db_with(to, model, "copy into an existing empty directory", false);
       rm_rf(to);
-      rep->count("failed_copies");
+      rep->count(rc == LDB_OK ? "copies_into_existing_empty_dir" : "failed_copies");
+    } else if (dv == 1) {   // the destination holds an earlier copy
+      rc = ldb_copy(dir.c_str(), to.c_str(), &opts.opt);
+      if (rc != LDB_OK) VF_FAIL("C20", "ldb_copy of a closed database returns %d", rc);
+      auto dest_before = snapshot_dir_bytes(to);
+      rc = ldb_copy(dir.c_str(), to.c_str(), &opts.opt);
+      if (snapshot_dir_bytes(dir) != before) VF_FAIL("C20", "a second ldb_copy to the same destination modified the source directory");
+      if (rc != LDB_OK) {
+        if (snapshot_dir_bytes(to) != dest_before) VF_FAIL("C20", "ldb_copy onto an existing database was refused (rc=%d) but removed or changed that database's files", rc);
+      }
+      compare_db_with(to, model, "earlier copy after a second ldb_copy to the same destination", false);
+      ldb_destroy(to.c_str(), &opts.opt);
+      rm_rf(to);
+      rep->count("copies_onto_existing_database");
+    } else if (dv == 2) {   // the source named as its own destination
+      rc = ldb_copy(dir.c_str(), dir.c_str(), &opts.opt);
+      if (snapshot_dir_bytes(dir) != before) VF_FAIL("C20", "ldb_copy of a database onto its own directory (rc=%d) removed or changed its files", rc);
+      rep->count("copies_onto_self");
     }
     rc = ldb_copy(dir.c_str(), to.c_str(), &opts.opt);
     if (rc != LDB_OK) VF_FAIL("C20", "ldb_copy of a closed database returns %d%s", rc, rc == 37 ? " (no locks available: an earlier failed copy did not release the source lock)" : "");
